@@ -126,7 +126,9 @@ func (e *Exec) ascend(fr *Frame, st *BState, x *ssa.Call, args []SV) SV {
 	if mc != nil {
 		binds = closures[mc]
 	}
+	e.oldStack = append(e.oldStack, head)
 	vals, out := e.runInline(fr, cf, s, []SV{item}, binds)
+	e.oldStack = e.oldStack[:len(e.oldStack)-1]
 	cont := scal(vals[0])
 	out.ghost["$ascbound"] = intSV(add(cur, intLit(1)))
 	for i, sc := range steps {
